@@ -43,13 +43,18 @@ def make_history(rng: random.Random, n: int, K: Sequence[int], kind: str) -> lis
         elif r < 0.85:
             cur = set(gen.random_knowledge_set(rng, n))
             ops.append(["set_known", sorted(cur)])
-        elif r < 0.93:
+        elif r < 0.90:
             if m in cur:
                 ops.append(["unset", m])
                 cur.discard(m)
             else:
                 ops.append(["set", m])
                 cur.add(m)
+        elif r < 0.95:
+            # bulk set (set_values on a subset, no reset): some already known, some new
+            sub = rng.sample(ex, rng.randint(1, min(len(ex), 4)))
+            ops.append(["bulk_set", sorted(sub)])
+            cur.update(sub)
         else:
             ops.append(["compute"])
             ops.append(["compute"])
@@ -85,6 +90,8 @@ def apply_ops(game, values: Sequence[float], ops: Iterable[list], on_compute=Non
             game.set_value(values[op[1]], Coalition(op[1]))
         elif k == "unset":
             game.unset_value(Coalition(op[1]))
+        elif k == "bulk_set":
+            game.set_values(np.array([values[m] for m in op[1]], dtype=np.float64), [Coalition(m) for m in op[1]])
         elif k == "compute":
             game.compute_bounds()
             if on_compute is not None:
